@@ -838,19 +838,21 @@ def make_world(case, pr=None):
     return world
 
 
-def jinns_weight(v, vector_len=2):
-    """protocol weight spec -> the python object handed to LossWeights*Dict"""
+def jinns_weight(v, vector_len=2, as_array=False):
+    """protocol weight spec -> the python object handed to LossWeights*Dict (`as_array`: every scalar weight held
+    in a 0-d array -- the same number, the form a weight takes once the loss has crossed a jit boundary)"""
     import jax.numpy as jnp
 
+    num = (lambda x: jnp.asarray(float(Fraction(x)))) if as_array else (lambda x: float(Fraction(x)))
     if v is None:
         return None
     if v == "vector":
         return jnp.ones((vector_len,))
     if isinstance(v, dict) and "dict" in v:
-        return {k: float(Fraction(x)) for k, x in v["dict"].items()}
+        return {k: num(x) for k, x in v["dict"].items()}
     if isinstance(v, dict) and "dict_vector" in v:
         return {k: jnp.ones((vector_len,)) for k in v["dict_vector"]}
-    return float(Fraction(v))
+    return num(v)
 
 
 def make_system(case, world):
@@ -875,7 +877,7 @@ def make_system(case, world):
 
     dyn = {e: world["make_eq"](e) for e in eqs if pr["residuals"][e] is not None}
     kws = {u: world["cons_kwargs"](u) for u in unknowns}
-    ws = {k: jinns_weight(v) for k, v in pr["wspec"].items()}
+    ws = {k: jinns_weight(v, as_array=bool(case.get("w0d"))) for k, v in pr["wspec"].items()}
     obs_slice = {u: (kws[u]["obs_slice"] if kws[u]["obs_slice"] is not None else Ellipsis) for u in unknowns}
     if base == "ode":
         return SystemLossODE(
